@@ -3,14 +3,19 @@
 
 Mechanism (shaped like the code): a directory is a list of entries in *listing order*; hidden and
 non-file entries are removed, the vendor's file-name pattern is applied (`re.match`, i.e. anchored
-at the start only, `IGNORECASE`), the survivors are stably sorted by the vendor's sort key, one
-reader task per file is submitted to an executor, the tasks complete in an arbitrary order `π`,
+at the start only, `IGNORECASE`), the survivors are stably sorted by the vendor's sort key (Nu: the
+number made of all digits of the stem; LDR: the pair lower-cased sample name, integer line index;
+TOFWERK: `calendar.timegm ∘ time.strptime` of the stamp, `ValueError` when `strptime` rejects it;
+generic: the name), one reader task per file is submitted to an executor, the tasks complete in an arbitrary order `π`,
 the results are gathered future by future in submission order, all lines are cut to the shortest
 one and stacked, all-NaN sample positions / columns are removed (LDR), the laser parameters are
 read, and only then the helper columns are dropped.
 
 Specification: row `k` of the image is the line of the accepted file with exactly `k` accepted
-files of smaller *acquisition key* (numeric line index / time stamp fields / file name).
+files of smaller *acquisition key* (numeric line index / LDR: lower-cased sample name, then numeric
+line index / time stamp fields / file name); the image is written pointwise (`specImage`): the sample
+positions and fields that survive are listed by index and every cell is looked up in the table of
+its own file - no mask, no `zip`, nothing shared with the mechanism's `stack` / `post`.
 
 `np.genfromtxt` is external: an entry carries the table it parses to (`Line`).
 The value type `α` is a parameter of everything except the parameter extraction (exact `Rat`).
@@ -59,17 +64,29 @@ def digits1 (s : List Char) : Option (List Char × List Char) :=
   let d := s.takeWhile isDigit
   if d.isEmpty then none else some (d, s.dropWhile isDigit)
 
-/-- `(\d+)\.csv` at the start of `s`: the digit group -/
-def numCsv (s : List Char) : Option (List Char) :=
+/-- `(\d+)\.csv` at the start of `s`: the digit group and what follows the match -/
+def numCsvR (s : List Char) : Option (List Char × List Char) :=
   match digits1 s with
   | none => none
-  | some (d, r) => if (lit ".csv".toList r).isSome then some d else none
+  | some (d, r) => (lit ".csv".toList r).map (fun rest => (d, rest))
+
+/-- `(\d+)\.csv` at the start of `s`: the digit group -/
+def numCsv (s : List Char) : Option (List Char) := (numCsvR s).map (·.1)
 
 /-- `line_(\d+)\.csv` -/
 def nuGroup (s : List Char) : Option (List Char) :=
   match lit "line_".toList s with
   | none => none
   | some r => numCsv r
+
+/-- the whole name is `line_<digits>.csv` (any letter case): `re.fullmatch` instead of `re.match` -/
+def nuFull (s : List Char) : Bool :=
+  match lit "line_".toList s with
+  | none => false
+  | some r =>
+    match numCsvR r with
+    | some (_, []) => true
+    | _ => false
 
 /-- `_ldr_(\d+)\.csv` at the start of `s` -/
 def ldrTail (s : List Char) : Option (List Char) :=
@@ -81,9 +98,14 @@ def ldrTail (s : List Char) : Option (List Char) :=
 def wordSplitsGreedy (s : List Char) : List Nat :=
   (List.range ((s.takeWhile isWord).length + 1)).reverse
 
-/-- `\w*_ldr_(\d+)\.csv`: greedy `\w*` with backtracking, the group of the first success -/
-def ldrGroup (s : List Char) : Option (List Char) :=
-  (wordSplitsGreedy s).findSome? (fun p => ldrTail (s.drop p))
+/-- `(\w*)_ldr_(\d+)\.csv`, `IGNORECASE`: greedy `\w*` with backtracking, the two groups of the first
+success (sample name, line index digits).  The filter pattern and the pattern of the sort key are
+this same expression. -/
+def ldrParts (s : List Char) : Option (List Char × List Char) :=
+  (wordSplitsGreedy s).findSome? (fun p => (ldrTail (s.drop p)).map (fun d => (s.take p, d)))
+
+/-- `\w*_ldr_(\d+)\.csv`: the digit group -/
+def ldrGroup (s : List Char) : Option (List Char) := (ldrParts s).map (·.2)
 
 /-- `.*\.csv` at the start of `s` (names contain no newline) -/
 def containsCsv (s : List Char) : Bool :=
@@ -164,18 +186,31 @@ def splitDots (s : List Char) : List (List Char) :=
       | [] => [[c]]
       | h :: t => (c :: h) :: t) [[]]
 
-/-- the six numbers of a `%Y.%m.%d-%Hh%Mm%Ss` stamp (only the strict 4.2.2 digit form is modelled;
-anything else gives `[]`) -/
+/-- the six numbers `time.strptime(group(1), "%Y.%m.%d-%Hh%Mm%Ss")` reads: `%Y` is exactly four
+digits, `%m` and `%d` one or two digits (`1[0-2]|0[1-9]|[1-9]`, `3[01]|[12]\d|0[1-9]|[1-9]`; the value
+ranges are checked by `strptimeOk`), the three time fields are the two-digit groups of the file-name
+pattern.  Anything else gives `[]` (`strptime` raises). -/
 def stampFields (s : List Char) : List Nat :=
   match tofwerkGroup s with
   | none => []
   | some (d, hh, mm, ss) =>
     match splitDots d with
     | [y, m, dd] =>
-      if y.length == 4 && m.length == 2 && dd.length == 2 && (y ++ m ++ dd).all isDigit then
+      if y.length == 4 && (m.length == 1 || m.length == 2) && (dd.length == 1 || dd.length == 2)
+          && (y ++ m ++ dd).all isDigit then
         [digitsNat y, digitsNat m, digitsNat dd, digitsNat hh, digitsNat mm, digitsNat ss]
       else []
     | _ => []
+
+/-- the stamp is written the way the instrument writes it: `YYYY.MM.DD`, every field zero-padded
+(`time.strptime` also reads one-digit months and days) -/
+def stampStrict (s : List Char) : Bool :=
+  match tofwerkGroup s with
+  | none => false
+  | some (d, _, _, _) =>
+    match splitDots d with
+    | [y, m, dd] => y.length == 4 && m.length == 2 && dd.length == 2
+    | _ => false
 
 /-- keys are compared as Python compares ints / strings: lexicographic, a proper prefix first -/
 def keyLe : List Int → List Int → Bool
@@ -185,20 +220,40 @@ def keyLe : List Int → List Int → Bool
 
 def keyLt (a b : List Int) : Bool := !keyLe b a
 
+/-- a Python tuple `(str, int)` as a comparison key: the code points of the string, a terminator
+below every code point, the integer.  `keyLe` on these lists is the tuple order (string first, by
+code points with a proper prefix first, then the integer): theorem `tupleKey_order`. -/
+def tupleKey (p : List Char) (i : Int) : List Int := p.map (fun c => (c.toNat : Int)) ++ [-1, i]
+
+/-- `str.lower()` on ASCII names -/
+def lower (p : List Char) : List Char := p.map Char.toLower
+
+/-- `ThermoLDROption.sortkey`: `(group(1).lower(), int(group(2)))` of
+`re.match(r"(\w*)_ldr_(\d+)\.csv", name, re.IGNORECASE)`, else `("", int(all digits of the stem) or -1)` -/
+def ldrKey (s : List Char) : List Int :=
+  match ldrParts s with
+  | some (p, d) => tupleKey (lower p) (digitsNat d)
+  | none => tupleKey [] (stemDigitsKey s)
+
 /-- the key `option.sortkey(path)` of the code; `tkey` is the stamp → seconds conversion
 (`calendar.timegm ∘ time.strptime`), a parameter -/
 def sortKey (v : Vendor) (tkey : List Nat → Int) (name : String) : List Int :=
   match v with
-  | .nu | .ldr => [stemDigitsKey name.toList]
+  | .nu => [stemDigitsKey name.toList]
+  | .ldr => ldrKey name.toList
   | .tofwerk => [tkey (stampFields name.toList)]
   | .generic => name.toList.map (fun c => (c.toNat : Int))
 
-/-- the acquisition key the property speaks of: numeric line index, the time stamp fields in the
-file name, plain file name -/
+/-- the acquisition key the property speaks of: numeric line index (LDR directories that hold the
+lines of several samples: the sample name as the code documents it - lower-cased, compared as a
+string - and then the numeric line index), the time stamp fields in the file name, plain file name -/
 def acqKey (v : Vendor) (name : String) : List Int :=
   match v with
   | .nu => [(((nuGroup name.toList).map digitsNat).getD 0 : Nat)]
-  | .ldr => [(((ldrGroup name.toList).map digitsNat).getD 0 : Nat)]
+  | .ldr =>
+    match ldrParts name.toList with
+    | some (p, d) => tupleKey (lower p) ((digitsNat d : Nat) : Int)
+    | none => []
   | .tofwerk => (stampFields name.toList).map (fun (n : Nat) => (n : Int))
   | .generic => name.toList.map (fun c => (c.toNat : Int))
 
@@ -224,12 +279,25 @@ def daysInMonth (y m : Nat) : Nat :=
   if m = 2 then (if isLeap y then 29 else 28)
   else if m = 4 ∨ m = 6 ∨ m = 9 ∨ m = 11 then 30 else 31
 
-/-- what `time.strptime` accepts (leap seconds excluded): a real calendar date and a time of day -/
+/-- what `time.strptime` accepts: a real calendar date, a time of day, seconds up to 61 -/
+def strptimeOk : List Nat → Bool
+  | [y, m, d, hh, mm, ss] =>
+    decide (1 ≤ y) && decide (1 ≤ m) && decide (m ≤ 12) && decide (1 ≤ d) && decide (d ≤ daysInMonth y m)
+      && decide (hh < 24) && decide (mm < 60) && decide (ss < 62)
+  | _ => false
+
+/-- a valid stamp: accepted by `time.strptime` and not a leap second -/
 def validStampB : List Nat → Bool
   | [y, m, d, hh, mm, ss] =>
     decide (1 ≤ y) && decide (1 ≤ m) && decide (m ≤ 12) && decide (1 ≤ d) && decide (d ≤ daysInMonth y m)
       && decide (hh < 24) && decide (mm < 60) && decide (ss < 60)
   | _ => false
+
+/-- `option.sortkey(path)` returns for every name (TOFWERK: `time.strptime` does not raise) -/
+def keysDefined (v : Vendor) (names : List String) : Bool :=
+  match v with
+  | .tofwerk => names.all (fun n => strptimeOk (stampFields n.toList))
+  | _ => true
 
 /-! ## the executor -/
 
@@ -322,10 +390,12 @@ def readLines {α : Type} (v : Vendor) (tkey : List Nat → Int) (listing : List
   let tasks := paths.map (·.line)         -- what each reader task returns: its own file's table
   gather tasks.length (complete tasks π)
 
-/-- `load(path, option, full=True)`; `none` = `ValueError` (no files / `min()` of nothing) -/
+/-- `load(path, option, full=True)`; `none` = `ValueError` (no files / a TOFWERK stamp that
+`time.strptime` rejects / `min()` of nothing) -/
 def load {α P : Type} (isNan : α → Bool) (rp : Vendor → Image α → P) (v : Vendor) (tkey : List Nat → Int)
     (listing : List (Entry α)) (π : List Nat) : Option (Image α × P) :=
   if (visible listing).isEmpty then none else
+  if !keysDefined v ((accepted v listing).map (·.name)) then none else
   let lines := readLines v tkey listing π
   if lines.isEmpty then none else
   some (post isNan rp v (stack lines))
@@ -345,11 +415,63 @@ def rank {β : Type} (key : β → List Int) (l : List β) (e : β) : Nat :=
 def byRank {β : Type} (key : β → List Int) (l : List β) : List β :=
   (List.range l.length).filterMap (fun k => l.find? (fun e => rank key l e == k))
 
+/-! ### the image, pointwise
+
+Nothing here uses `stack`, `post`, masks or `zip`: the surviving sample positions and fields are
+listed by index, and a cell of the result is looked up in the table of its own file. -/
+
+/-- the header of a directory: the field names of the first line -/
+def hdrOf {α : Type} (lines : List (Line α)) : List String := (lines.head?.map (·.names)).getD []
+
+/-- what `np.genfromtxt(names=True)` and `np.stack` grant: every sample row of every line has one
+cell per field of the header -/
+def Rect {α : Type} (lines : List (Line α)) : Prop :=
+  ∀ l ∈ lines, ∀ row ∈ l.rows, row.length = (hdrOf lines).length
+
+/-- the common length: the least line length -/
+def cutLen {α : Type} (lines : List (Line α)) : Nat := ((lines.map (·.rows.length)).min?).getD 0
+
+/-- sample position `j` holds NaN in every field of every line -/
+def specNanPos {α : Type} (isNan : α → Bool) (lines : List (Line α)) (j : Nat) : Bool :=
+  lines.all (fun l => (l.rows[j]?).all (fun row => row.all isNan))
+
+/-- field `c` holds NaN at every sample position below `L` of every line -/
+def specNanCol {α : Type} (isNan : α → Bool) (lines : List (Line α)) (L c : Nat) : Bool :=
+  lines.all (fun l => (List.range L).all (fun j => (l.rows[j]?).all (fun row => (row[c]?).all isNan)))
+
+/-- the sample positions of the result, increasing: below the common length and (when all-NaN data
+is dropped) not NaN everywhere -/
+def specPos {α : Type} (isNan : α → Bool) (dropNan : Bool) (lines : List (Line α)) : List Nat :=
+  (List.range (cutLen lines)).filter (fun j => !(dropNan && specNanPos isNan lines j))
+
+/-- the fields of the result, in header order: name wanted and (when all-NaN data is dropped) not
+NaN everywhere -/
+def specCols {α : Type} (isNan : α → Bool) (dropNan : Bool) (keep : String → Bool) (hdr : List String)
+    (lines : List (Line α)) : List Nat :=
+  (List.range hdr.length).filter (fun c =>
+    (hdr[c]?).any keep && !(dropNan && specNanCol isNan lines (cutLen lines) c))
+
+/-- cell `(k, j, i)` of the result is cell `(pos[j], cols[i])` of line `k` -/
+def specImage {α : Type} (isNan : α → Bool) (dropNan : Bool) (keep : String → Bool) (lines : List (Line α)) :
+    Image α :=
+  let hdr := hdrOf lines
+  let pos := specPos isNan dropNan lines
+  let cols := specCols isNan dropNan keep hdr lines
+  { names := cols.filterMap (fun c => hdr[c]?),
+    lines := lines.map (fun l => pos.filterMap (fun j => (l.rows[j]?).map (fun row => cols.filterMap (fun c => row[c]?)))) }
+
+/-- the returned image has no helper column; the parameters are read from the image that still
+has them (all-NaN positions and fields already removed, for LDR) -/
+def specPost {α P : Type} (isNan : α → Bool) (rp : Vendor → Image α → P) (v : Vendor) (lines : List (Line α)) :
+    Image α × P :=
+  (specImage isNan (dropsNan v) (fun n => !(dropNames v).contains n) lines,
+   rp v (specImage isNan (dropsNan v) (fun _ => true) lines))
+
 def specLoad {α P : Type} (isNan : α → Bool) (rp : Vendor → Image α → P) (v : Vendor)
     (listing : List (Entry α)) : Option (Image α × P) :=
   let acc := listing.filter (fun e => e.isFile && !hidden e.name && matchesV v e.name)
   if acc.isEmpty then none else
-  some (post isNan rp v (stack ((byRank (fun e => acqKey v e.name) acc).map (·.line))))
+  some (specPost isNan rp v ((byRank (fun e => acqKey v e.name) acc).map (·.line)))
 
 /-! ## parameter extraction (exact rationals; `none` = NaN) -/
 
